@@ -394,6 +394,8 @@ SITE_TABLE = [
     # (function, what-prefix, reason)   -- never wider than one named site kind in one function
     ('rsbdd::bdd::BDDEnv::cmp_count', 'Overflow(Sub', 'R7: `n - 1` per list element; the property bounds n so that n - len does not overflow (after the language-level constant is clamped to i64::MAX >= 0, n - len >= -1 - len > i64::MIN)'),
     ('rsbdd::bdd::BDDEnv::cmp_count_compare', 'Overflow(Add', 'R7: `n + 1` per list element starting from -1, 0 or 1: bounded by the list length'),
+    ('rsbdd::bdd::BDDEnv::cmp_count', 'Overflow(Add', 'R7: the counter moves by one per list element (either direction when the two ladders share a helper); the property bounds n so that n +/- len stays in range'),
+    ('rsbdd::bdd::BDDEnv::cmp_count_compare', 'Overflow(Sub', 'R7: the counter moves by one per list element (either direction when the two ladders share a helper); starting from -1, 0 or 1 it stays within the list length'),
     ('rsbdd::parser::SymbolicBDD::tokenize', 'Overflow(Add', 'ids of a preloaded ordering are positions of first appearance on the CLI path (< token count); API callers: documented precondition `distinct ids` below usize::MAX; the fresh-id counter grows by one per distinct name'),
     ('rsbdd::parser::ParsedFormula::to_free_index::{closure#', 'panic', 'every symbol of an evaluated diagram is a free variable (C09: bound names never leak, engine S/O); cross-property assumption'),
     ('rsbdd::stats', 'Iterator::sum<Duration>', 'sum of <= `repeat` measured elapsed times; Duration holds u64 seconds'),
